@@ -139,17 +139,20 @@ def sr_op(rng, huge_ok):
     return op, big
 
 
-def thr_case(rng, n):
+def thr_case(rng, n, clean=False):
+    """clean=True: no inputs that hit the known findings of C19 (used by C18 for the decision table)"""
     ops = []
     r = rng.random()
+    if clean and 0.12 <= r < 0.24:
+        r = 0.5
     if r < 0.12:
         ops.append("thr none")
     elif r < 0.24:
         ops.append("thr %s %s" % rng.choice(BADTHR) + " %d" % (rng.random() < 0.7))
     elif r < 0.6:
-        ops.append("thr %s %s %d" % (rng.choice(MAXTOK), rng.choice(RATIO), rng.random() < 0.5))
+        ops.append("thr %s %s %d" % (rng.choice(MAXTOK), rng.choice(RATIO), clean or rng.random() < 0.5))
     else:
-        ops.append("thr %s %s %d" % (dec3(rng, rng.choice([1, 5, 20, 1000])), dec3(rng, rng.choice([1, 1, 3, 50])), rng.random() < 0.5))
+        ops.append("thr %s %s %d" % (dec3(rng, rng.choice([1, 5, 20, 1000])), dec3(rng, rng.choice([1, 1, 3, 50])), clean or rng.random() < 0.5))
     psucc = rng.choice([0.1, 0.3, 0.5, 0.8])
     pthr = rng.choice([0.1, 0.3, 0.6])
     for i in range(n):
@@ -163,7 +166,7 @@ def thr_case(rng, n):
             while big:          # huge delays saturate the bubble clock: only as the last op of a case
                 op, big = sr_op(rng, huge_ok=False)
             ops.append(op)
-    if rng.random() < 0.35:
+    if not clean and rng.random() < 0.35:
         for _ in range(20):
             op, big = sr_op(rng, huge_ok=True)
             if big:
